@@ -7,7 +7,7 @@
            (admissible) candidates at minimal squared coordinate distance, the tolerance in metres by the SI
            factor of its unit; "unspecified" when the distance is within the relative band [unit_band] of the
            tolerance (the property leaves the boundary open), when a coordinate is outside the haversine range
-           (not a WGS84 coordinate), or when the case is compared by id and the minimiser is not unique.
+           with a tolerance configured, or when the case is compared by id and the minimiser is not unique.
    Payload: `Ok <query after>` or `Err <class> <query after>`.  In by-distance mode (tie cases) the matched ids
            in the query are replaced by the squared coordinate distance of that candidate to the coordinate. *)
 From Coq Require Import ZArith QArith List String Bool Floats.
@@ -103,18 +103,17 @@ Definition spec_point (bydist : bool) (tol : option (Q * dist_unit)) (gcq : poin
       let ms := c0 :: rest in
       let pick := if bydist then SOk (dist_json (cpt c0) p)
                   else match rest with [] => SOk (JInt (cid c0)) | _ => SUnspec end in
-      (* not a WGS84 coordinate: the property is silent (the vertex matcher fails only with a tolerance
-         configured, the edge matcher always) *)
-      if negb (in_range p && forallb (fun c => in_range (cpt c)) ms) then SUnspec
-      else
-        match tol with
-        | None => pick
-        | Some (t, u) =>
+      match tol with
+      | None => pick
+      | Some (t, u) =>
+          (* not a WGS84 coordinate with a tolerance configured: haversine refuses it, the property is silent *)
+          if negb (in_range p && forallb (fun c => in_range (cpt c)) ms) then SUnspec
+          else
             let ds := map (fun c => gcq p (cpt c)) ms in
             if forallb (fun d => Qltb d (tol_m t u * (1 - unit_band))%Q) ds then pick
             else if forallb (fun d => Qltb (tol_m t u * (1 + unit_band))%Q d) ds then SErr
             else SUnspec
-        end
+      end
   end.
 
 Definition unspecified := "unspecified".
